@@ -335,3 +335,16 @@ def obs_judge(run, module, marker, obs_file):
     if not m:
         raise ToolError(module + " did not produce a verdict\n" + r["out"][-3000:])
     return json.loads(json.loads(m.group(1)))
+
+
+def script_run(run, vec_paths, n, cap, stride=1, offset=0, timeout=3000):
+    out = run.fresh("script", ".json")
+    wit = run.fresh("swit", ".ndjson")
+    cmd = [HARNESS, "scriptvec", "--vectors"] + list(vec_paths) + ["--n", str(n), "--cap", str(cap), "--scratch", run.dir,
+           "--witness-out", wit, "--out", out, "--stride", str(stride), "--offset", str(offset)]
+    p = sh(cmd, timeout=timeout, check=False)
+    if p.returncode != 0:
+        raise ToolError("harness scriptvec failed: " + p.stdout[-3000:])
+    j = json.load(open(out))
+    j["witness_file"] = wit
+    return j
